@@ -669,6 +669,21 @@ static void c17_const(std::mt19937_64& rng)
   }
 }
 
+// the first index of a multi-dimensional array designates a ROW: an array of the remaining extent,
+// i rows from the start (what it designates has the row's size, not an element's)
+template<typename A>
+static void row_events(A& arr, const char* kind, int rows, int cols, long es)
+{
+  for (int i = 0; i < rows; i++) {
+    auto& row = arr[i];
+    tr::Ev e("row");
+    e.str("kind", kind).num("rows", rows).num("cols", cols).num("es", es).num("i", i);
+    e.num("bytes", (long long)sizeof(row));
+    e.num("off", (long long)(reinterpret_cast<uintptr_t>(std::addressof(row)) - reinterpret_cast<uintptr_t>(std::addressof(arr))));
+    out.put(e);
+  }
+}
+
 static void c17_2d(std::mt19937_64& rng)
 {
   // multi-dimensional shape: outer index selects a row (row size = 4 elements)
@@ -682,9 +697,22 @@ static void c17_2d(std::mt19937_64& rng)
     idx_sweep<decltype(vol2), u64>(rng, vol2, "V", "int[4]", 3, GuestSize<IntArr4>::v, w, false);
     auto& row_app = app2[1];
     auto& row_vol = vol2[2];
-    idx_sweep<decltype(row_app), int16_t>(rng, row_app, "T", "int", 4, sizeof(int), w, true);
-    idx_sweep<decltype(row_vol), int16_t>(rng, row_vol, "V", "int", 4, GuestSize<int>::v, w, true);
-    idx_sweep<decltype(row_vol), u64>(rng, row_vol, "V", "int", 4, GuestSize<int>::v, w, false);
+    // (a row that is not a row cannot be indexed again: visible in the `row` events)
+    if constexpr (sizeof(row_app) == sizeof(int) * 4) {
+      idx_sweep<decltype(row_app), int16_t>(rng, row_app, "T", "int", 4, sizeof(int), w, true);
+    }
+    if constexpr (sizeof(row_vol) == GuestSize<IntArr4>::v) {
+      idx_sweep<decltype(row_vol), int16_t>(rng, row_vol, "V", "int", 4, GuestSize<int>::v, w, true);
+      idx_sweep<decltype(row_vol), u64>(rng, row_vol, "V", "int", 4, GuestSize<int>::v, w, false);
+    }
+  }
+  row_events(app2, "T", 3, 4, sizeof(int));
+  row_events(vol2, "V", 3, 4, GuestSize<int>::v);
+  {
+    tainted<short[4][2][5], Sbx> app3;
+    auto p3 = sb->malloc_in_sandbox<short[4][2][5]>();
+    row_events(app3, "T", 4, 10, sizeof(short));
+    row_events(*p3, "V", 4, 10, GuestSize<short>::v);
   }
 }
 
